@@ -30,7 +30,7 @@ def _hs():
                 sym="register state in 3, interest byte in {0,1,2,0xFF}, verdict"))
     hs.append(H("c01::c01_k2_interest_and", desc="Interest::and truth table", sym="both operands"))
     for n, t in (("live0", "quick"), ("live1", "quick"), ("dead_only", "quick"), ("live2", "thorough"), ("live3", "thorough"),
-                 ("dead_then_live1", "thorough"), ("live1_then_dead", "thorough"), ("live2_then_dead", "thorough")):
+                 ("dead_then_live1", "quick"), ("live1_then_dead", "quick"), ("live2_then_dead", "thorough")):
         hs.append(H("c01::c01_k2_fold_" + n, tier=t, desc="K2: real rebuild_callsite_interest over registrar list '%s', stale cache symbolic" % n,
                     sym="each live collector's register_callsite answer in 3, stale cached interest"))
     for n in ("rebuild1_live", "empty_registry"):
